@@ -27,10 +27,10 @@ Inductive rparam :=
 | RP_morph (rx ry : Q)
 | RP_displace (s : Q).
 
-(* convert_morphology (since 4d36085): default radius = PositiveF32::new(scale).unwrap(); a given radius is multiplied
-   with the scale FIRST (morph_fix), then goes through the zero replacement, the sign test and PositiveF32::new *)
+(* convert_morphology (since 4d36085 / e3b9753): the fallback radius is the constant `morph_default` (1, 1); a given radius
+   is multiplied with the scale FIRST (morph_fix), then goes through the zero replacement, the sign test and PositiveF32::new *)
 Definition morph_radii (radius : option (list Q)) (scale : Q * Q) : Q * Q :=
-  let d := (sz_w scale, sz_h scale) in
+  let d := morph_default in
   match radius with
   | None => d
   | Some l =>
@@ -79,15 +79,6 @@ Definition map_param (p : fparam) (B : qrect) : fparam :=
   | FP_morph (Some l) => let '(x, y) := morph_pair l in FP_morph (Some [x * w; y * h])
   | FP_displace s => FP_displace (Some (Qunwrap_or s 0 * ((w + h) / 2)))
   end.
-(* known class (residual of the feMorphology fallbacks after 4d36085): without a radius, or with a negative component,
-   the radius falls back to the SCALE (the box size under objectBoundingBox units, 1 in user space) *)
-Definition KnownClass_morph_fallback (p : fparam) : bool :=
-  match p with
-  | FP_morph None => true
-  | FP_morph (Some l) => let '(x, y) := morph_pair l in Qltb x 0 || Qltb y 0
-  | _ => false
-  end.
-
 (* ---------------------------------------------------------------- collect_children *)
 Record fprim := { fp_kind : prim_kind; fp_x : option Q; fp_y : option Q; fp_w : option Q; fp_h : option Q; fp_par : fparam }.
 Record rprim := { rp_rect : qrect; rp_par : rparam }.
